@@ -588,26 +588,47 @@ Theorem py_alpha_detection_eq (sl : list section) :
 Proof.
   unfold py_alpha_detection, drive_all. cbv zeta.
   match goal with |- context [while_ _ _ ?c ?b] => set (wcond := c); set (wbody := b) end.
-  pose proof (driver_sim (list str * list str) (list str * list str) _ _ Empty_set
-                (detect_alpha isalpha isupper lower_c true mwparse) false
-                (fun acc f => (fst acc ++ fst f, snd acc ++ snd f))
-                (fun '(index, section_list, alpha_list, mask_list) => (section_list, (alpha_list, mask_list), index))
-                wcond wbody) as H.
-  match type of H with ?A -> ?B -> _ => assert (Hc : A); [|assert (Hb : B)] end.
-  { unfold wcond. intros [[[idx sl0] al] ml] ? ? ? E. injection E as E1 E2 E3. subst. reflexivity. }
-  { unfold wbody. intros [[[idx sl0] al] ml] done x rest acc Hg. cbn in Hg. injection Hg as E1 E2 E3. subst sl0 acc idx.
-    unfold goes_on. cbv beta iota zeta. unfold sub_l. rewrite !lget_mid.
-    destruct x as [s [l|]]; cbn [snd fst is_none bind]; [goes_on_now|].
-    pose proof (py_detect_alpha_eq isalpha isupper lower_c mwparse (s, None)) as E. cbn [fst] in E. rewrite <- E. clear E.
-    destruct (py_detect_alpha isalpha isupper lower_c mwparse (s, None)) as [[[pvv [[|w ws]|]] ms]|];
-      cbn [dres_alpha nonempty call truthy]; [goes_on_now| |goes_on_now|reflexivity].
-    destruct ms as [m|]; cbn [call]; [|destruct pvv; reflexivity].
-    rewrite ldel_mid. destruct pvv; cbn [call pv_list bind]; [reflexivity|]. rewrite lins_mid. goes_on_now. }
-  specialize (H Hc Hb (drive_fuel sl) sl [] (0, sl, [], []) ([], []) eq_refl).
-  destruct (drive (detect_alpha isalpha isupper lower_c true mwparse) false (drive_fuel sl) sl) as [[out fs]|].
-  - destruct H as (st' & i & -> & Hg). destruct st' as [[[idx sl'] al] ml]. rewrite fold_extend2 in Hg.
-    injection Hg as -> -> -> _. reflexivity.
-  - now rewrite H.
+  (* alpha_list and mask_list have the same type: their order in the tuple of loop-carried variables is the
+     order in which the source binds them first; the same script for either layout *)
+  first
+  [
+    pose proof (driver_sim (list str * list str) (list str * list str) _ _ Empty_set
+                  (detect_alpha isalpha isupper lower_c true mwparse) false
+                  (fun acc f => (fst acc ++ fst f, snd acc ++ snd f))
+                  (fun '(index, section_list, alpha_list, mask_list) => (section_list : list section, (alpha_list : list str, mask_list : list str), index : Z)) wcond wbody) as H;
+    match type of H with ?A -> ?B -> _ => assert (Hc : A); [|assert (Hb : B)] end;
+    [ unfold wcond; intros [[[idx sl0] l1] l2] ? ? ? E; injection E as E1 E2 E3; subst; reflexivity
+    | unfold wbody; intros [[[idx sl0] l1] l2] done x rest acc Hg; cbn in Hg; injection Hg as E1 E2 E3; subst sl0 acc idx;
+      unfold goes_on; cbv beta iota zeta; unfold sub_l; rewrite !lget_mid;
+      destruct x as [s [l|]]; cbn [snd fst is_none bind]; [goes_on_now|];
+      pose proof (py_detect_alpha_eq isalpha isupper lower_c mwparse (s, None)) as E; cbn [fst] in E; rewrite <- E; clear E;
+      destruct (py_detect_alpha isalpha isupper lower_c mwparse (s, None)) as [[[pvv [[|w ws]|]] ms]|];
+        cbn [dres_alpha nonempty call truthy]; [goes_on_now| |goes_on_now|reflexivity];
+      destruct ms as [m|]; cbn [call]; rewrite ?ldel_mid; destruct pvv; cbn [call pv_list bind]; rewrite ?ldel_mid;
+        cbn [call pv_list bind]; try reflexivity; rewrite lins_mid; goes_on_now
+    | ]
+  |
+    pose proof (driver_sim (list str * list str) (list str * list str) _ _ Empty_set
+                  (detect_alpha isalpha isupper lower_c true mwparse) false
+                  (fun acc f => (fst acc ++ fst f, snd acc ++ snd f))
+                  (fun '(index, section_list, mask_list, alpha_list) => (section_list : list section, (alpha_list : list str, mask_list : list str), index : Z)) wcond wbody) as H;
+    match type of H with ?A -> ?B -> _ => assert (Hc : A); [|assert (Hb : B)] end;
+    [ unfold wcond; intros [[[idx sl0] l1] l2] ? ? ? E; injection E as E1 E2 E3; subst; reflexivity
+    | unfold wbody; intros [[[idx sl0] l1] l2] done x rest acc Hg; cbn in Hg; injection Hg as E1 E2 E3; subst sl0 acc idx;
+      unfold goes_on; cbv beta iota zeta; unfold sub_l; rewrite !lget_mid;
+      destruct x as [s [l|]]; cbn [snd fst is_none bind]; [goes_on_now|];
+      pose proof (py_detect_alpha_eq isalpha isupper lower_c mwparse (s, None)) as E; cbn [fst] in E; rewrite <- E; clear E;
+      destruct (py_detect_alpha isalpha isupper lower_c mwparse (s, None)) as [[[pvv [[|w ws]|]] ms]|];
+        cbn [dres_alpha nonempty call truthy]; [goes_on_now| |goes_on_now|reflexivity];
+      destruct ms as [m|]; cbn [call]; rewrite ?ldel_mid; destruct pvv; cbn [call pv_list bind]; rewrite ?ldel_mid;
+        cbn [call pv_list bind]; try reflexivity; rewrite lins_mid; goes_on_now
+    | ]
+  ];
+  specialize (H Hc Hb (drive_fuel sl) sl [] (0, sl, [], []) ([], []) eq_refl);
+  destruct (drive (detect_alpha isalpha isupper lower_c true mwparse) false (drive_fuel sl) sl) as [[out fs]|];
+  [ destruct H as (st' & i & -> & Hg); destruct st' as [[[idx sl'] l1] l2]; rewrite fold_extend2 in Hg;
+    injection Hg as E1 E2 E3 E4; subst; reflexivity
+  | now rewrite H ].
 Qed.
 
 End AlphaDriver.
